@@ -546,6 +546,11 @@ func main() {
 	}
 	// work directories of the scripts are created (and removed) by RunT below $GOTMPDIR
 	os.Setenv("GOTMPDIR", gotmp)
+	// the process the scripts run in has values of its own for every name the scripts refer to: a reference to a name the
+	// script has not defined (yet) expands to nothing, not to what the host happens to hold
+	for _, nm := range append([]string{"VW", "U", "u1", "NX", "UNSET"}, poolNames...) {
+		os.Setenv(nm, "host-"+nm)
+	}
 	res := vutil.NewResult()
 	switch *mode {
 	case "lines":
